@@ -219,6 +219,11 @@ def run(chk):
     thorough = chk.tier == "thorough"
     cov = chk.coverage
 
+    # 0. atomicity of the cache operations (each persistence call inside them is
+    #    made under the cache mutex held for the whole function): Gen/Access.v
+    #    cache_calls table + the probe on the real code
+    from checks import hist_common
+    hist_common.granularity_obligation(chk, "C15")
     # 1. proofs: the general theorems, then the obligations over the table
     ok_general, out_general = vlib.standard_proof_stage(chk, "C15", THEOREMS)
     ok_table, out_table, failing = table_stage(chk)
